@@ -14,6 +14,7 @@ for ln in open(sys.argv[1]):
     meta = json.load(open(mp))
     meta['detected_by'] = det
     meta['target_detected'] = sid[:3] in det
+    meta['target_property_detected'] = sid[:3] in det
     json.dump(meta, open(mp, 'w'), indent=1)
     n += 1
 print('refreshed', n)
